@@ -98,6 +98,9 @@ func Start(prop string) *Run {
 			r.Seed = v
 		}
 	}
+	if *budget == 0 && r.Tier == "thorough" && r.Worker < 0 {
+		*budget = 20 * time.Minute // default wall-clock budget of a thorough run; ends with exhaustive:false, exit 0
+	}
 	if *budget > 0 {
 		r.Deadline = r.Start.Add(*budget)
 	}
